@@ -2,9 +2,6 @@ module qv
 
 go 1.13
 
-require (
-	github.com/ftrvxmtrx/fd v0.0.0-20150925145434-c6d800382fff
-	github.com/lugu/qiloop v0.0.0
-)
+require github.com/lugu/qiloop v0.0.0
 
 replace github.com/lugu/qiloop => /repo
